@@ -161,6 +161,24 @@ def key_term(v):
     return key_sort(v.t).constructor(0)(*terms)
 
 
+def esort(t):
+    """z3 sort of an element / key of type t inside a set, sequence or dict (compound -> tuple datatype)"""
+    return key_sort(t)
+
+
+def epack(v):
+    return key_term(v)
+
+
+def eunpack(term, t):
+    """inverse of epack: rebuild a value of type t from its element term"""
+    sorts = t.sorts()
+    if len(sorts) == 1:
+        return t.make([term])
+    dt = key_sort(t)
+    return t.make([dt.accessor(0, i)(term) for i in range(len(sorts))])
+
+
 class TDict(TRefLike):
     def __init__(self, k, v, udict=False, flavour=None):
         """flavour: python class of the dict object: 'dict', 'udict' (pint.util.udict) or 'ddict'
@@ -211,7 +229,7 @@ class TSeq(T):
         self.name = f"Seq[{e}]"
 
     def sort(self):
-        return z3.SeqSort(self.e.sort())
+        return z3.SeqSort(esort(self.e))
 
     def default_terms(self):
         return [z3.Empty(self.sort())]
@@ -569,6 +587,8 @@ def val_eq(a: Val, b: Val):
         return a.v == b.v
     if isinstance(a.t, TOpaque) and isinstance(b.t, TOpaque):
         return a.v == b.v
+    if isinstance(a.t, (TArr, TSetV)) and type(a.t) is type(b.t) and a.t == b.t:
+        return a.v == b.v
     if type(a.t) is not type(b.t) and not (isinstance(a.t, TRefLike) and isinstance(b.t, TRefLike)):
         return z3.BoolVal(False)
     raise Unsupported(f"== on {a.t} and {b.t} needs a contract")
@@ -705,10 +725,10 @@ class TSetV(T):
         self.name = f"SetV[{e}]"
 
     def sort(self):
-        return z3.ArraySort(self.e.sort(), z3.BoolSort())
+        return z3.ArraySort(esort(self.e), z3.BoolSort())
 
     def default_terms(self):
-        return [z3.K(self.e.sort(), z3.BoolVal(False))]
+        return [z3.K(esort(self.e), z3.BoolVal(False))]
 
 
 class TArr(T):
